@@ -67,6 +67,17 @@ m("M-replica", "C15", "G-replica", ("x/sao/keeper/msg_server_store.go", "\t\tif 
 m("M-elig2", "C15", "G-elig-2", ("x/node/keeper/node.go", "if !found || pledge.TotalStorage-pledge.UsedStorage < size {\n\t\t\t\ttoIgnore = true", "if !found || pledge.TotalStorage < size {\n\t\t\t\ttoIgnore = true"))
 m("M-elig2b", "C15", "G-elig-2", ("x/node/keeper/node.go", "\t\t\t\tif ig == snodes[i].Creator {\n\t\t\t\t\ttoIgnore = true\n\t\t\t\t\tbreak", "\t\t\t\tif ig == snodes[i].Creator && len(ignore) > 1 {\n\t\t\t\t\ttoIgnore = true\n\t\t\t\t\tbreak"))
 m("M-provenance", "C15", "T-provenance", ("x/node/keeper/reputation.go", "\tnodes := k.GetAllNodesByStatusAndReputationAndRole(ctx, uint32(types.NODE_NORMAL), status, 8000.0, size)\n", "\tnodes := k.GetAllNodesByStatusAndReputationAndRole(ctx, uint32(types.NODE_NORMAL), status, 8000.0, size)\n\tif len(nodes) == 0 {\n\t\tnodes = k.GetAllNodesByStatus(ctx, status)\n\t}\n"))
+# ---------------------------------------------------------------- C16 / C08
+m("M7", "C08", "CAP-mint", ("x/node/keeper/msg_server_claim_reward.go", "\tk.RepayPledgeDebt(ctx, msg.Creator, []*sdk.Coin{&claimReward, &workerReward})\n", "\tk.RepayPledgeDebt(ctx, msg.Creator, []*sdk.Coin{&claimReward, &workerReward})\n\tif claimReward.Amount.IsZero() && pledge.TotalStorage > 1<<50 {\n\t\tk.MintCoins(ctx, sdk.NewCoins(sdk.NewInt64Coin(claimReward.Denom, 1)))\n\t}\n"))
+m("M8", "C08", "T-settle", ("x/node/keeper/msg_server_add_vstorage.go", "\tif pledge.TotalStorage > 0 {\n\t\tpending := pool.AccRewardPerByte.Amount.MulInt64(pledge.TotalStorage).Sub(pledge.RewardDebt.Amount)\n\t\tpledge.Reward.Amount = pledge.Reward.Amount.Add(pending)\n\t}\n\n\tpledge.TotalStorage += size.Int64()\n", "\tpledge.TotalStorage += size.Int64()\n\n\tif pledge.TotalStorage > 0 {\n\t\tpending := pool.AccRewardPerByte.Amount.MulInt64(pledge.TotalStorage).Sub(pledge.RewardDebt.Amount)\n\t\tpledge.Reward.Amount = pledge.Reward.Amount.Add(pending)\n\t}\n"))
+m("M8b", "C08", "T-settle", ("x/node/keeper/msg_server_remove_vstorage.go", "\trewardDebt := pool.AccRewardPerByte.Amount.MulInt64(pledge.TotalStorage)\n\n\tpledge.RewardDebt.Amount = rewardDebt\n", "\tif pledge.TotalStorage > 0 {\n\t\tpledge.RewardDebt.Amount = pool.AccRewardPerByte.Amount.MulInt64(pledge.TotalStorage)\n\t}\n"))
+m("M15", "C16", "T-count", ("x/order/keeper/order.go", "k.SetOrderCount(ctx, count+1)", "k.SetOrderCount(ctx, count)"))
+m("M15b", "C16", "CAP-count", ("x/order/keeper/order_management.go", "\tk.RemoveOrder(ctx, orderId)\n\n\treturn nil\n}\n\nfunc (k Keeper) RefundOrder", "\tk.RemoveOrder(ctx, orderId)\n\tif orderId+1 == k.GetOrderCount(ctx) {\n\t\tk.SetOrderCount(ctx, orderId)\n\t}\n\n\treturn nil\n}\n\nfunc (k Keeper) RefundOrder"))
+m("M-inflight", "C16", "G-inflight", ("x/model/keeper/data_management.go", "if metadata.Status != types.MetaComplete {", "if metadata.Status != types.MetaComplete && metadata.Status != types.MetaNew {"))
+m("M-inflight2", "C16", "G-inflight", ("x/sao/keeper/msg_server_store.go", "if lastOrder.Status != ordertypes.OrderCompleted {", "if lastOrder.Status != ordertypes.OrderCompleted && lastOrder.Status != ordertypes.OrderDataReady {"))
+m("M-mint1", "C08", "G-mint", ("x/node/abci.go", "\tif err == nil {\n\t\tpool.TotalReward = pool.TotalReward.Add(rewardCoin)", "\tpool.TotalReward = pool.TotalReward.Add(rewardCoin)\n\tif err == nil {"))
+m("M-mint2", "C08", "G-mint", ("x/node/abci.go", "\t\tif reward.LT(rewardCoin.Amount) {\n\t\t\trewardCoin = sdk.NewCoin(params.BlockReward.Denom, reward)\n\t\t}", "\t\trewardCoin = sdk.NewCoin(params.BlockReward.Denom, reward)"))
+m("M-claim", "C08", "T-claim", ("x/node/keeper/msg_server_claim_reward.go", "\tpledge.Reward = remainReward\n", "\t_ = remainReward\n"))
 # ---------------------------------------------------------------- C01 / C03
 m("M17", "C03", "D3", ("x/node/keeper/node.go", "func (k Keeper) SetNode(ctx sdk.Context, node types.Node) {\n",
    "var nodeCache = map[string]types.Node{}\n\nfunc (k Keeper) SetNode(ctx sdk.Context, node types.Node) {\n\tnodeCache[node.Creator] = node\n"))
@@ -104,6 +115,7 @@ P = [
  ("S-C19-a1", "C19", "G-fault", "/verif/seeded/C19-a1/patch.diff"),
  ("S-C17-a1", "C17", "G-upd", "/verif/seeded/C17-a1/patch.diff"),
  ("S-C20-a1", "C20", "G-promote", "/verif/seeded/C20-a1/patch.diff"),
+ ("S-C03-a1", "C03", "D3", "/verif/seeded/C03-a1/patch.diff"),
 ]
 for (id, prop, rule, path) in P:
     M.append((id, prop, rule, [("@patch", path, "")]))
